@@ -26,7 +26,17 @@
       [ds] = (algorithm, buffer length) per entry; [pcr0_digest_refs] : for SHA1 and SHA256, in the
       order they are measured; [dentry] = (algorithm, hash bytes), [ser_list es] the bytes of the
       entries on flash (HashAlg(2) Size(2) HashBuffer), [shape_of es] their shape,
-      [slice off len l] = len bytes of l from off. *)
+      [slice off len l] = len bytes of l from off;
+    - [heap] : the arrays a caller of the mappers owns, each with ALL its elements (spare capacity
+      behind a slice included); [MCall which size bios a lo n] : entry point [which] (0 Resolve,
+      1 ResolveFullImageOffset, 2 Unresolve, 3 UnresolveFullImageOffset, 4/5 the BIOS-region
+      variants) called with the slice [a[lo:lo+n]] spread as its variadic argument
+      ([heap_slice h a lo n]); its answer becomes a new array at the end of the heap;
+      [msession h ops] : what every call returned and the heap after the session;
+      [pmm_apply] : the entry point as a function of the list;
+    - [vstate] : the rangeMap / countMap fields of ONE NodeVisitor object; [run_v st rows fb t] : a
+      Run of that object on tree [t] ([rows] = NameToRangesMap of the node given to this Run);
+      [vsession st runs] : what consecutive Runs of one object hand to the callback. *)
 From CSS Require Import Lib.Base Model.AddrMap Proofs.AddrMap Proofs.AddrMapExt.
 
 (** * 1. Address maps are mutually inverse — for every 64-bit value and every size *)
@@ -320,3 +330,102 @@ Example C14_pcr0_digest_example :
   slice (4294924022 - 4294924000) 5 (ser_list ex_digests) = [20;21;22;23;24] /\
   slice (4294924004 - 4294924000) 8 (ser_list ex_digests) = [1;2;3;4;5;6;7;8].
 Proof. exact ex_digest_refs. Qed.
+
+(** * 9. Walkers and mappers keep nothing between calls and leave their arguments alone
+
+      One NodeVisitor object used for any number of Runs (other images, the same image with
+      another Node.AddOffset, sub-trees, another fallback setting), starting from ANY leftover
+      state [st] of its private maps: every Run hands the callback exactly what a fresh visitor
+      would. *)
+
+Theorem C14_walker_session_stateless :
+  forall st runs, vsession st runs = map walk_of runs.
+Proof. exact walker_session_stateless. Qed.
+Print Assumptions C14_walker_session_stateless.
+
+(** ... hence the guarantees of section 6 hold for EVERY Run of a reused visitor (same
+    hypothesis about the rows, per Run): denotes / named nodes located / all nodes visited. *)
+Theorem C14_walker_session_partial :
+  forall st runs, Forall run_rows_ok runs -> Forall2 run_denotes runs (vsession st runs).
+Proof. exact walker_session_partial. Qed.
+Print Assumptions C14_walker_session_partial.
+
+(** not vacuous: a visitor that harvests the rows only on its first Run satisfies the
+    hypotheses on both images (a BIOS region, then the same region behind a 4 KiB descriptor),
+    is right on the first and reports the volume of the second where it was in the first *)
+Theorem C14_walker_stale_rows_witness :
+  run_rows_ok (stale_t1, stale_rows1, false) /\ run_rows_ok (stale_t2, stale_rows2, false) /\
+  let (o1, st1) := run_v_keep v_fresh stale_rows1 false stale_t1 in
+  let (o2, _) := run_v_keep st1 stale_rows2 false stale_t2 in
+  o1 = walk stale_rows1 false stale_t1 /\
+  o2 = Ok [(0, 12288); (0, 4096)] /\
+  walk stale_rows2 false stale_t2 = Ok [(0, 12288); (4096, 4096)].
+Proof. exact walker_stale_rows_witness. Qed.
+Print Assumptions C14_walker_stale_rows_witness.
+
+(** A mapper call changes no array of its caller -- not the list it was given, not the
+    elements around the slice, not the spare capacity -- and answers with one new array. *)
+Theorem C14_mapper_call_preserves_arguments :
+  forall h which size bios a lo n,
+    let (res, h') := mop_step h (MCall which size bios a lo n) in
+    res = Some (pmm_apply which size bios (heap_slice h a lo n)) /\
+    firstn (length h) h' = h /\ length h' = S (length h) /\
+    nth (length h) h' [] = answer_array (pmm_apply which size bios (heap_slice h a lo n)).
+Proof. exact mapper_call_preserves. Qed.
+Print Assumptions C14_mapper_call_preserves_arguments.
+
+Theorem C14_mapper_session_frame :
+  forall h ops, forallb is_call ops = true -> firstn (length h) (snd (msession h ops)) = h.
+Proof. exact mapper_session_frame. Qed.
+Print Assumptions C14_mapper_session_frame.
+
+(** Every answer is the function of that call's own arguments as the caller wrote them,
+    whatever was converted before -- so converting the same list twice gives the same answer. *)
+Theorem C14_mapper_session_independent :
+  forall h ops, forallb is_call ops = true ->
+    forall k which size bios a lo n,
+      nth_error ops k = Some (MCall which size bios a lo n) -> (a < length h)%nat ->
+      nth_error (fst (msession h ops)) k = Some (Some (pmm_apply which size bios (heap_slice h a lo n))).
+Proof. exact mapper_session_independent. Qed.
+Print Assumptions C14_mapper_session_independent.
+
+Theorem C14_mapper_session_twice :
+  forall h ops i j which size bios a lo n,
+    forallb is_call ops = true ->
+    nth_error ops i = Some (MCall which size bios a lo n) ->
+    nth_error ops j = Some (MCall which size bios a lo n) -> (a < length h)%nat ->
+    nth_error (fst (msession h ops)) i = nth_error (fst (msession h ops)) j /\
+    nth_error (fst (msession h ops)) i = Some (Some (pmm_apply which size bios (heap_slice h a lo n))).
+Proof. exact mapper_session_twice. Qed.
+Print Assumptions C14_mapper_session_twice.
+
+(** offsets -> addresses -> offsets (and the other way round) through the caller's memory: the
+    second call is given the ANSWER of the first and returns the original list, which is
+    itself still in place *)
+Theorem C14_mapper_session_roundtrip :
+  forall h size a lo n,
+    (a < length h)%nat -> Forall (fun r => u64 (fst r)) (heap_slice h a lo n) ->
+    let l := heap_slice h a lo n in
+    fst (msession h [MCall 3 size None a lo n; MCall 1 size None (length h) 0 (length l)])
+      = [Some (Ok (map_ranges (pmm_unresolve size) l)); Some (Ok l)] /\
+    fst (msession h [MCall 0 size None a lo n; MCall 2 size None (length h) 0 (length l)])
+      = [Some (Ok (map_ranges (pmm_resolve size) l)); Some (Ok l)] /\
+    firstn (length h) (snd (msession h [MCall 3 size None a lo n; MCall 1 size None (length h) 0 (length l)])) = h.
+Proof. exact mapper_session_roundtrip. Qed.
+Print Assumptions C14_mapper_session_roundtrip.
+
+(** an answer is memory of its own: a later write of the caller into its list does not reach
+    an answer it was given before, nor the other way round *)
+Theorem C14_mapper_answer_private :
+  forall h a i r b, a <> b -> nth b (heap_write h a i r) [] = nth b h [].
+Proof. exact mapper_answer_private. Qed.
+Print Assumptions C14_mapper_answer_private.
+
+Example C14_mapper_session_example :
+  msession [[(4294901760, 16); (4294905856, 32); (7, 7)]]
+           [MCall 1 65536 None 0 0 2; MCall 1 65536 None 0 0 2; MCall 3 65536 None 1 0 2; MWrite 0 0 (1, 1)]
+  = ([Some (Ok [(0, 16); (4096, 32)]); Some (Ok [(0, 16); (4096, 32)]);
+      Some (Ok [(4294901760, 16); (4294905856, 32)]); None],
+     [[(1, 1); (4294905856, 32); (7, 7)]; [(0, 16); (4096, 32)]; [(0, 16); (4096, 32)];
+      [(4294901760, 16); (4294905856, 32)]]).
+Proof. exact mapper_session_example. Qed.
